@@ -310,7 +310,8 @@ def witnesses():
         # a matched token at position 0 with iToken = 1 gets no region
         ("nBeforeAndAfter_short_prefix_skipped", [(comma, ","), (cr, None), (kw, "x")], "get_n_tokens_before_and_after_tokens", {"iToken": 1, "lTokens": [comma]}, "ok "),
         # `{k}` = serial number of the token at position k
-        ("nBeforeAndAfterBounded_negative_start", [(op, "("), (comma, ","), (cp, ")"), (cr, None)], "get_n_tokens_before_and_after_tokens_bounded_by_tokens", {"iToken": 2, "lTokens": [comma], "lBetween": [op, cp]}, "ok -1,1,N,{3}"),
+        # nBeforeAndAfterBounded_short_prefix_skipped (the former witness nBeforeAndAfterBounded_negative_start, repaired in /repo)
+        ("nBeforeAndAfterBounded_short_prefix_skipped", [(op, "("), (comma, ","), (cp, ")"), (cr, None)], "get_n_tokens_before_and_after_tokens_bounded_by_tokens", {"iToken": 2, "lTokens": [comma], "lBetween": [op, cp]}, "ok "),
         ("lineWhichIncludes_first_line", [(op, "("), (kw, "x"), (comma, ","), (cp, ")"), (cr, None)], "get_line_which_includes_tokens", {"lTokens": [comma]}, "ok 3,1,-1,{3}"),
         ("fromNonWsUntil_start_none", [(kw, "x"), (comma, ","), (cr, None)], "get_tokens_from_non_whitespace_token_until_tokens", {"lTokens": [comma]}, "ok N,1,N,{0}"),
         # ifConditions_blank_condition_skipped / _untrimmed (the former witness ifConditions_blank_condition, repaired in /repo)
